@@ -294,6 +294,23 @@ func classify(run *vrun.Run, prop string, c *Case, res *Result) {
 		run.Nontrivial(hashCase(c))
 	}
 	run.Cover("origin=" + c.Origin)
+	if c.Origin == "real-shaped" {
+		if c.LevelsFromDirection {
+			run.Cover("real: levels from run directions only")
+		} else {
+			run.Cover("real: reference UBA levels")
+			for _, r := range c.Runs {
+				b := 0
+				if c.ParaRTL {
+					b = 1
+				}
+				if r.Level >= b+2 {
+					run.Cover("real: run at level >= base+2")
+					break
+				}
+			}
+		}
+	}
 	run.Cover(fmt.Sprintf("policy=%d", c.Policy))
 	run.Cover(fmt.Sprintf("lines=%s", bucketN(nlines)))
 	if hasTrunc {
